@@ -350,3 +350,13 @@ func (m *Mesh) NameOf(id identity.AgentID) string {
 	}
 	return "?" + id.ShortString()
 }
+
+// NodeByName returns the node called name, or nil.
+func (m *Mesh) NodeByName(name string) *Node {
+	for _, n := range m.Nodes {
+		if n.Name == name {
+			return n
+		}
+	}
+	return nil
+}
